@@ -29,8 +29,8 @@ ASSUMPTIONS = [
 CASES = {"quick": 320, "thorough": 20000}
 MIN_CASES = {"quick": 80, "thorough": 1500}
 MIN_COUNTERS = {"quick": {"returned": 40}, "thorough": {"returned": 600}}
-REQUIRED_CLASSES = ["clash"]
-REQUIRED_COUNTERS = ["returned", "iterations_judged_by_contract", "final_returns_judged", "cells_checked", "hard_modules_checked", "fixed_modules_checked"]
+REQUIRED_CLASSES = ["clash", "synthetic_mirror"]
+REQUIRED_COUNTERS = ["synthetic_extractions_judged", "returned", "iterations_judged_by_contract", "final_returns_judged", "cells_checked", "hard_modules_checked", "fixed_modules_checked"]
 SOFT_DEADLINE = {"quick": 240, "thorough": 3300}
 WATCHDOG = {"quick": 900, "thorough": 7200}
 
@@ -82,9 +82,81 @@ def gen_clash(rng):
             "refine": ["grid", n, n], "alpha": rng.choice([0.3, 0.7]), "threshold": rng.choice([0.9, 0.95]), "max_iter": 1}
 
 
+def gen_synthetic(rng):
+    """hand-made optimiser values for extract_solution: the solver rarely mirrors a flippable module on its own, so the translate /
+    mirror step of the real extract_solution is driven directly with model values that ask for a translation, a horizontal, a vertical or
+    a double mirror of a multi-rectangle hard module"""
+    u = rng.choice([1.0, 0.5, 2.0])
+    n = rng.choice([6, 8])
+    W = H = n * u
+    # asymmetric orthogon: trunk + one or two branches with offsets in both axes
+    rects = [[2 * u, 2 * u, 2 * u, 1 * u], [1.5 * u, 3 * u, 1 * u, 1 * u]]
+    if rng.random() < 0.5:
+        rects.append([3.5 * u, 1.75 * u, 1 * u, 0.5 * u])
+    flip = rng.random() < 0.8
+    mods = {"H": {"hard": True, "rectangles": rects}, "S": {"area": 2 * u * u, "center": [W - 2 * u, H - 2 * u]}}
+    if flip:
+        mods["H"]["flip"] = True
+    return {"cls": "synthetic_mirror", "die": {"fam": "int", "W": W, "H": H, "regions": [], "struct": "empty", "fixed": {}, "netlist": {"Modules": mods, "Nets": [["H", "S"]]}},
+            "refine": ["grid", n, n], "mirror": [rng.random() < 0.5, rng.random() < 0.5] if flip else [False, False],
+            "target": [rng.choice([3, 4]) * u, rng.choice([3, 4]) * u], "threshold": 0.9, "alpha": 0.5, "max_iter": 1}
+
+
+def check_synthetic(case, ctx):
+    from frame.allocation.allocation import create_initial_allocation
+    ok, res = ctx.call(run, case)
+    if not ok:
+        ctx.violation("setup_raised", f"{type(res).__name__}: {str(res)[:200]}")
+        return
+    die, nl = res
+    W, H = case["die"]["W"], case["die"]["H"]
+    before = module_state(nl)
+    alloc0 = create_initial_allocation(die)
+    cells = [ra.rect for ra in alloc0.allocations]
+    model = _opt.Model()
+    hmod = nl.get_module("H")
+    a0 = sum(r.area for r in hmod.rectangles)
+    c0x = sum(r.center.x * r.area for r in hmod.rectangles) / a0
+    c0y = sum(r.center.y * r.area for r in hmod.rectangles) / a0
+    tx, ty = case["target"]
+    sx, sy = (-1.0 if case["mirror"][0] else 1.0), (-1.0 if case["mirror"][1] else 1.0)
+    for m in nl.modules:
+        model.a[m.name] = {c: float(alloc0.allocations[c].alloc.get(m.name, 0.0)) for c in range(len(cells))}
+        if m.name == "H":
+            model.x["H"], model.y["H"] = float(tx), float(ty)
+            for r, rect in enumerate(m.rectangles):
+                model.x[f"H_{r}"] = float(tx + sx * (rect.center.x - c0x))
+                model.y[f"H_{r}"] = float(ty + sy * (rect.center.y - c0y))
+                model.d[f"H_{r}"] = 0.25
+        else:
+            model.x[m.name], model.y[m.name], model.d[m.name] = float(m.center.x), float(m.center.y), 0.5
+    _iters.clear()
+    ok, out = ctx.call(_opt.extract_solution, model, die, cells, case["threshold"])
+    what = f"case={case}"
+    if not ok:
+        ctx.violation("extract_raised", f"extract_solution raised {type(out).__name__}: {str(out)[:200]} :: {what}")
+        return
+    ctx.count("synthetic_extractions_judged")
+    ctx.nontrivial(True)
+    d2, alloc, disp = out
+    snap = snapshot_result(d2, alloc)
+    judge(ctx, snap, before, W, H, what, "synthetic extract_solution")
+    # the rectangles must be exactly the requested translate / mirror image
+    got = snap["modules"]["H"]["abs"]
+    want = [(tx + sx * o[0], ty + sy * o[1], o[2], o[3]) for o in before["H"]["offs"]]
+    if any(abs(g[0] - w[0]) > 1e-9 * W or abs(g[1] - w[1]) > 1e-9 * H or g[2] != w[2] or g[3] != w[3] for g, w in zip(got, want)):
+        ctx.violation("wrong_rigid_motion", f"asked for centre {case['target']} mirror={case['mirror']}: rectangles {got}, expected {want} :: {what}")
+    try:
+        model.gekko.cleanup()
+    except Exception:  # noqa
+        pass
+
+
 def generate(rng, tier, i):
     if i % 12 == 11:
         return gen_clash(rng)
+    if i % 12 == 5:
+        return gen_synthetic(rng)
     fam = rng.choice(["int", "int", "half", "dec_0.1"])
     d = gd.gen_die(rng, max_n=4, fam=fam, struct=rng.choice(["empty", "empty", "random", "border", "corners"]))
     if d["nx"] < 2 or d["ny"] < 2:
@@ -244,6 +316,8 @@ def run(case):
 
 
 def check(case, ctx):
+    if case["cls"] == "synthetic_mirror":
+        return check_synthetic(case, ctx)
     ok, res = ctx.call(run, case)
     if not ok:
         ctx.violation("setup_raised", f"{type(res).__name__}: {str(res)[:200]} :: {case['die']}")
